@@ -23,14 +23,18 @@ CONSTANTS N,              \* number of commands
           MaxStack,       \* stands in for the interpreter's recursion limit
           MaxCalls,       \* number of top-level API calls explored
           MaxFail,        \* at most this many failing commands
+          MaxSpecial,     \* at most this many "special" features in total: failing command, ignored reference, None result
+          MemoKey,        \* "flag": the memo test is the finished flag | "result": a non-None stored result (a design that loses None results)
           OnlyDags,       \* restrict Init to acyclic programs
           OnlyCyclic      \* restrict Init to cyclic programs
 
 Cmd == 1..N
 VARIABLES direct, listed, fails,
+          ignored,        \* ignored[c]: referenced results that c's execute never reads (a short-circuiting consumer)
+          nulls,          \* commands whose execute returns None
           pstate, queue, st, nexec, ndone, stack, todo, val, err, hist
-prog == <<direct, listed, fails>>
-vars == <<direct, listed, fails, pstate, queue, st, nexec, ndone, stack, todo, val, err, hist>>
+prog == <<direct, listed, fails, ignored, nulls>>
+vars == <<direct, listed, fails, ignored, nulls, pstate, queue, st, nexec, ndone, stack, todo, val, err, hist>>
 
 Deps(c) == direct[c] \cup listed[c]
 NoVal == <<>>
@@ -42,7 +46,8 @@ OnCycle(c) == c \in Reach(Deps(c), N)
 HasCycle == \E c \in Cmd : OnCycle(c)
 ReachesCycle(c) == \E d \in Reach({c}, N) : OnCycle(d)
 RECURSIVE Unfold(_)
-Unfold(c) == <<c, [d \in Deps(c) |-> Unfold(d)]>>          \* the mathematical evaluation; DAGs only
+Reads(c) == Deps(c) \ ignored[c]
+Unfold(c) == <<c, [d \in Reads(c) |-> Unfold(d)]>>         \* the mathematical evaluation; DAGs only
 DependsOnFailure(c) == \E d \in Reach({c}, N) : d \in fails
 
 \* ---------- leaves as Program.run computes them
@@ -65,6 +70,10 @@ Init == /\ \E g \in [Cmd -> SUBSET Cmd] :
                     /\ listed = [c \in Cmd |-> {d \in g[c] : <<c, d>> \in L}]
                     /\ direct = [c \in Cmd |-> {d \in g[c] : <<c, d>> \notin L}]
         /\ fails \in {F \in SUBSET Cmd : Cardinality(F) <= MaxFail}
+        /\ \E I \in {{}} \cup {{e} : e \in {e \in Cmd \X Cmd : e[2] \in Deps(e[1])}} :
+              ignored = [c \in Cmd |-> {d \in Cmd : <<c, d>> \in I}]
+        /\ nulls \in {{}} \cup {{c} : c \in Cmd}
+        /\ Cardinality(fails) + Cardinality(UNION {ignored[c] : c \in Cmd}) + Cardinality(nulls) <= MaxSpecial
         /\ pstate = "idle" /\ queue = <<>> /\ st = [c \in Cmd |-> "new"]
         /\ nexec = [c \in Cmd |-> 0] /\ ndone = [c \in Cmd |-> 0]
         /\ stack = <<>> /\ todo = [c \in Cmd |-> {}] /\ val = [c \in Cmd |-> NoVal]
@@ -81,7 +90,8 @@ Prepass == /\ pstate = "prepass" /\ pstate' = "running"
            /\ UNCHANGED <<prog, st, nexec, ndone, stack, todo, val, err, hist>>
 
 \* ---------- Command.run(c), entered from the leaf loop or from a dependency pull
-Enter(c) == IF Memo /\ st[c] = "finished"
+Done(c) == st[c] = "finished" /\ (MemoKey = "flag" \/ c \notin nulls)      \* what the memo test sees
+Enter(c) == IF Memo /\ Done(c)
             THEN UNCHANGED <<st, nexec, stack, todo, err, pstate>>                       \* memo hit
             ELSE IF CycleGuard /\ st[c] = "running"
             THEN /\ err' = "RecursiveModelStructure" /\ pstate' = "unwinding"
@@ -89,7 +99,7 @@ Enter(c) == IF Memo /\ st[c] = "finished"
             ELSE IF Len(stack) >= MaxStack
             THEN /\ err' = "StackOverflow" /\ pstate' = "unwinding" /\ UNCHANGED <<st, nexec, stack, todo>>
             ELSE /\ st' = [st EXCEPT ![c] = "running"] /\ nexec' = [nexec EXCEPT ![c] = @ + 1]
-                 /\ stack' = Append(stack, c) /\ todo' = [todo EXCEPT ![c] = Deps(c)]
+                 /\ stack' = Append(stack, c) /\ todo' = [todo EXCEPT ![c] = Reads(c)]
                  /\ UNCHANGED <<err, pstate>>
 
 PickLeaf == /\ pstate = "running" /\ stack = <<>> /\ queue # <<>>
@@ -98,14 +108,14 @@ PickLeaf == /\ pstate = "running" /\ stack = <<>> /\ queue # <<>>
 
 \* execute() of the top frame asks for one more input: d.result
 Pull(d) == /\ pstate = "running" /\ stack # <<>> /\ d \in todo[Top]
-           /\ IF Memo /\ st[d] = "finished"
+           /\ IF Memo /\ Done(d)
               THEN /\ todo' = [todo EXCEPT ![Top] = @ \ {d}]                  \* read the finished value
                    /\ UNCHANGED <<st, nexec, stack, err, pstate>>
               ELSE Enter(d)                                                  \* nested Command.run(d)
            /\ UNCHANGED <<prog, queue, ndone, val, hist>>
 
 ExecEnd == /\ pstate = "running" /\ stack # <<>> /\ todo[Top] = {} /\ Top \notin fails
-           /\ val' = [val EXCEPT ![Top] = <<Top, [d \in Deps(Top) |-> val[d]]>>]
+           /\ val' = [val EXCEPT ![Top] = <<Top, [d \in Reads(Top) |-> val[d]]>>]
            /\ st' = [st EXCEPT ![Top] = "finished"] /\ ndone' = [ndone EXCEPT ![Top] = @ + 1]
            /\ stack' = Pop(stack)
            /\ todo' = IF Len(stack) >= 2                      \* the caller's d.result returns the value
@@ -162,5 +172,5 @@ Terminates == [](~Idle ~> Idle)
 
 \* printed once per terminal state for the replay harness (single worker runs only)
 Report == (Terminal /\ Len(hist) = MaxCalls) =>
-             PrintT(<<"TERM", direct, listed, fails, hist, pstate, err, nexec, ndone>>)
+             PrintT(<<"TERM", direct, listed, fails, ignored, nulls, hist, pstate, err, nexec, ndone>>)
 =============================================================================
